@@ -142,10 +142,15 @@ type wworld struct {
 	nontriv    bool
 	pubSeen    int
 	dirty      bool // an accepted mutated request happened: the quiescence oracle does not apply
+	msgfaults  bool // this world duplicates requests and loses / delays responses
 	dbfault    bool // a storage command was made to fail: leftovers beyond the end of a log are tolerated by the store oracle
 	snapSeen   map[string]bool
 	jobs       []wjob
+	holdMode   int           // racing snapshot updates: 1 = this sync's background update is held in its first query, 2 = the sync after it
+	holdRel    func()        // releases the held query
+	holdOn     bool          // the hold of mode 1 was reached
 	concurrent bool // requests were served concurrently: quiescence is judged under C12
+	inRound    bool // this world serves rounds of simultaneous requests (C12)
 	realVer    map[string]uint64
 	base       int  // goroutines before the last request was sent
 	snapOff    bool // a storage fault hit the post-response work: the next digest tells the checker to adopt the observed snapshots
@@ -721,6 +726,68 @@ func (w *wworld) staleUpdate() {
 }
 
 // captureJob remembers the datatype document as a handler that just stored operations held it
+// racingUpdates: the background snapshot update of one push is slow (its first query is answered late) while a second
+// push on the same datatype is committed and its update runs.  Updates of one datatype run one at a time (their lock):
+// the outcome is the one of the first update followed by the second, and the recorded version never decreases (C11).
+func (w *wworld) racingUpdates(x *wdt) {
+	if x.rep.dt.GetState() != model.StateOfDatatype_SUBSCRIBED || w.dbfault {
+		return
+	}
+	docOf := func() *schema.DatatypeDoc {
+		colDoc, _ := w.e.mgr.Mongo.GetCollection(w.e.ctx, x.owner.col)
+		if colDoc == nil {
+			return nil
+		}
+		d, _ := w.e.mgr.Mongo.GetDatatypeByKey(w.e.ctx, colDoc.Num, x.key)
+		return d
+	}
+	w.local(x)
+	if len(x.rep.dt.CreatePushPullPack().Operations) == 0 {
+		return
+	}
+	cmd0 := w.e.fm.CmdCount()
+	w.holdMode = 1
+	w.sync(x, 0)
+	if !w.holdOn {
+		w.holdMode = 0
+		return
+	}
+	defer func() { w.holdRel(); w.holdMode = 0; w.holdOn = false }()
+	dA := docOf()
+	w.holdMode = 2
+	w.local(x)
+	second := len(x.rep.dt.CreatePushPullPack().Operations) > 0
+	if second {
+		w.sync(x, 0)
+	}
+	dB := docOf()
+	time.Sleep(30 * time.Millisecond)
+	w.checkSnapshots()
+	w.holdRel()
+	want := 1
+	if second {
+		want = 2
+	}
+	deadline := time.Now().Add(8 * time.Second)
+	for time.Now().Before(deadline) && w.e.fm.CountAfter(cmd0, "update", x.owner.col) < want {
+		time.Sleep(200 * time.Microsecond)
+	}
+	w.settle(w.base)
+	w.holdMode, w.holdOn = 0, false
+	after := w.dbDigest()
+	w.checkLog(after)
+	w.checkSnapshots()
+	if dA == nil || dB == nil {
+		return
+	}
+	g := func(d *schema.DatatypeDoc) string {
+		return fmt.Sprintf("(mkDdoc %s %s %s %s %s [] [])", gStr(d.DUID), gStr(d.Key), gN(uint64(d.CollectionNum)), gN(typeNum[d.Type]), gN(d.Sseq.End))
+	}
+	w.evs = append(w.evs, fmt.Sprintf("WSnapUpd2 %s %s %s %s", gStr(x.owner.col), g(dA), g(dB), after.gal))
+	w.desc = append(w.desc, fmt.Sprintf("snapshot update of key %q at end %d answered late while the push to end %d was committed and updated", x.key, dA.Sseq.End, dB.Sseq.End))
+	w.c.Count("ev-racing-snapshot-updates")
+}
+
 func (w *wworld) captureJob(x *wdt) {
 	colDoc, _ := w.e.mgr.Mongo.GetCollection(w.e.ctx, x.owner.col)
 	if colDoc == nil {
@@ -737,6 +804,21 @@ type wjob struct {
 }
 
 // ---------- C06 oracle: the stored log of every datatype is a gapless exactly-once order ----------
+// logViolate reports a broken log invariant under C06 and, in a world where storage commands failed or messages were
+// duplicated / lost, under the property that promises the invariant in spite of that (C08, C07)
+func (w *wworld) logViolate(sig, what string, replay interface{}) {
+	w.c.Violate("C06", sig, what, replay)
+	if w.dbfault {
+		w.c.Violate("C08", sig, what, replay)
+	}
+	if w.msgfaults {
+		w.c.Violate("C07", sig, what, replay)
+	}
+	if w.inRound {
+		w.c.Violate("C12", sig, what, replay)
+	}
+}
+
 func (w *wworld) checkLog(v dbView) {
 	type od struct {
 		sseq, seq uint64
@@ -749,9 +831,18 @@ func (w *wworld) checkLog(v dbView) {
 		byDuid[du] = append(byDuid[du], od{bnum(bget(o, "sseq")), bnum(bget(id, "seq")), bget(id, "cuid").(string), bget(o, "_id").(string)})
 	}
 	known := map[string]bool{}
+	byKey := map[string]string{}
 	for _, d := range v.dts {
 		du := bget(d, "_id").(string)
 		known[du] = true
+		// a (collection, key) names at most one datatype
+		ck := fmt.Sprintf("%d|%v", bnum(bget(d, "colNum")), bget(d, "key"))
+		if other, dup := byKey[ck]; dup {
+			what := fmt.Sprintf("two datatype documents (%s and %s) are stored under one collection and key %v", other, du, bget(d, "key"))
+			w.c.Violate("C13", "two-datatypes-under-one-key", what, w.desc)
+			w.logViolate("two-datatypes-under-one-key", what, w.desc)
+		}
+		byKey[ck] = du
 		sseq, _ := bget(d, "sseq").(bson.D)
 		end := bnum(bget(sseq, "end"))
 		l := byDuid[du]
@@ -763,19 +854,19 @@ func (w *wworld) checkLog(v dbView) {
 			}
 		}
 		if uint64(len(l)) != end {
-			w.c.Violate("C06", "log-end-mismatch", fmt.Sprintf("datatype %s records end of log %d but %d operations are stored", du, end, len(l)), w.desc)
+			w.logViolate("log-end-mismatch", fmt.Sprintf("datatype %s records end of log %d but %d operations are stored", du, end, len(l)), w.desc)
 		}
 		last := map[string]uint64{}
 		for i, o := range l {
 			if o.sseq != uint64(i+1) {
-				w.c.Violate("C06", "log-gap-or-repeat", fmt.Sprintf("datatype %s: stored server sequence numbers are not 1..n (position %d holds sseq %d)", du, i+1, o.sseq), w.desc)
+				w.logViolate("log-gap-or-repeat", fmt.Sprintf("datatype %s: stored server sequence numbers are not 1..n (position %d holds sseq %d)", du, i+1, o.sseq), w.desc)
 				break
 			}
 			if o.id != fmt.Sprintf("%s:%d", du, o.sseq) {
-				w.c.Violate("C06", "log-id-mismatch", fmt.Sprintf("operation document %s does not carry the id duid:sseq", o.id), w.desc)
+				w.logViolate("log-id-mismatch", fmt.Sprintf("operation document %s does not carry the id duid:sseq", o.id), w.desc)
 			}
 			if o.seq != last[o.cuid]+1 {
-				w.c.Violate("C06", "client-order", fmt.Sprintf("datatype %s: operations of client %s are not stored in issue order without gaps (seq %d after %d)", du, o.cuid, o.seq, last[o.cuid]), w.desc)
+				w.logViolate("client-order", fmt.Sprintf("datatype %s: operations of client %s are not stored in issue order without gaps (seq %d after %d)", du, o.cuid, o.seq, last[o.cuid]), w.desc)
 			}
 			last[o.cuid] = o.seq
 		}
@@ -786,10 +877,10 @@ func (w *wworld) checkLog(v dbView) {
 				cp, _ := bget(sub, "cp").(bson.D)
 				s, cq := bnum(bget(cp, "s")), bnum(bget(cp, "c"))
 				if s > end {
-					w.c.Violate("C06", "checkpoint-beyond-log", fmt.Sprintf("datatype %s: client %s has checkpoint sseq %d beyond the end of the log %d", du, e.Key, s, end), w.desc)
+					w.logViolate("checkpoint-beyond-log", fmt.Sprintf("datatype %s: client %s has checkpoint sseq %d beyond the end of the log %d", du, e.Key, s, end), w.desc)
 				}
 				if cq > last[e.Key] {
-					w.c.Violate("C06", "ack-of-unstored-op", fmt.Sprintf("datatype %s: client %s is acknowledged up to seq %d but only %d of its operations are stored", du, e.Key, cq, last[e.Key]), w.desc)
+					w.logViolate("ack-of-unstored-op", fmt.Sprintf("datatype %s: client %s is acknowledged up to seq %d but only %d of its operations are stored", du, e.Key, cq, last[e.Key]), w.desc)
 				}
 			}
 		}
@@ -822,7 +913,7 @@ func (w *wworld) checkLog(v dbView) {
 			continue // a create whose second write failed: the operations have no datatype document yet
 		}
 		if !known[du] {
-			w.c.Violate("C06", "orphan-operations", fmt.Sprintf("operations are stored under %s which is not a datatype", du), w.desc)
+			w.logViolate("orphan-operations", fmt.Sprintf("operations are stored under %s which is not a datatype", du), w.desc)
 		}
 	}
 }
@@ -928,6 +1019,10 @@ func (w *wworld) sync(x *wdt, fault int) {
 	if fault == 4 {
 		w.e.fm.FailNext(1 + w.c.Rng.Intn(9))
 	}
+	var holdReached <-chan struct{}
+	if w.holdMode == 1 {
+		holdReached, w.holdRel = w.e.fm.HoldNext("find", "-_-Snapshots")
+	}
 	ex := w.call(msg)
 	if ex.timeout {
 		prop := "C16"
@@ -984,10 +1079,42 @@ func (w *wworld) sync(x *wdt, fault int) {
 	if fault == 4 && !isErr {
 		w.c.Violate("C08", "fault-not-reported", fmt.Sprintf("storage command %s failed while serving key %q but the client got a normal response", fg, x.key), w.desc)
 	}
-	if !isErr && pushed > 0 && resp.CheckPoint.Cseq > before0cseq(before, pack.DUID, x.owner.cuid) {
+	if w.holdMode == 1 {
+		// the background snapshot update of this push is to be held in its first query: wait until it got there
+		w.holdOn = false
+		if !isErr && pushed > 0 {
+			select {
+			case <-holdReached:
+				// the update has read the latest snapshot; it is held at its next query, the operations after that snapshot
+				r2, rel2 := w.e.fm.HoldNext("find", "-_-Operations")
+				w.holdRel()
+				w.holdRel = rel2
+				select {
+				case <-r2:
+					w.holdOn = true
+				case <-time.After(time.Second):
+				}
+			case <-time.After(time.Second):
+			}
+		}
+		if !w.holdOn {
+			w.holdRel()
+		}
+	}
+	if !isErr && pushed > 0 && resp.CheckPoint.Cseq > before0cseq(before, pack.DUID, x.owner.cuid) && !(w.holdMode != 0 && w.holdOn) {
 		if !postFault {
 			w.waitPost(x.owner.col, pubsBefore, cmdBefore)
 		}
+	}
+	if w.holdMode != 0 && w.holdOn {
+		if !isErr && pushed > 0 && resp.CheckPoint.Cseq > before0cseq(before, pack.DUID, x.owner.cuid) {
+			// the notification precedes the snapshot update in the handler's goroutine: wait for it, not for the update
+			deadline := time.Now().Add(3 * time.Second)
+			for time.Now().Before(deadline) && len(w.e.mq.Published()) <= pubsBefore {
+				time.Sleep(200 * time.Microsecond)
+			}
+		}
+		w.snapOff = true // snapshot updates are pending: the stored snapshots are taken as observed, the race is judged afterwards
 	}
 	w.settle(w.base)
 	if postFault {
@@ -1608,7 +1735,7 @@ func sliceWire(c *Ctx, kind string) {
 	var cases []string
 	ty := map[string]string{"counter": "ccall", "map": "mcall", "list": "lcall", "doc": "ucall"}[kind]
 	for h := 0; h < n; h++ {
-		w := &wworld{c: c, e: getEnv(), kind: kind}
+		w := &wworld{c: c, e: getEnv(), kind: kind, msgfaults: faults}
 		p, msg := guarded(func() {
 			ncol := 1 + c.Rng.Intn(2)
 			for i := 0; i < ncol; i++ {
@@ -1655,6 +1782,9 @@ func sliceWire(c *Ctx, kind string) {
 				case k < 6 && len(w.jobs) > 0:
 					w.cur = "stale-update"
 					w.staleUpdate()
+				case k < 12 && !faults && !c.DbFaults:
+					w.cur = "racing-updates"
+					w.racingUpdates(x)
 				case k < 45:
 					w.cur = "local"
 					w.local(x)
